@@ -350,6 +350,11 @@ type Lemma struct {
 	Src    string
 }
 
+type Witness struct {
+	Iface, Type string
+	Fields      map[string]string // method -> field
+}
+
 type SpecDB struct {
 	Fns       map[string]*SpecFn
 	Contracts map[string]*Contract
@@ -357,12 +362,13 @@ type SpecDB struct {
 	Lemmas    []*Lemma
 	Tables    map[string]map[string]string // table name -> key -> value (for schema substitution)
 	UFuns     map[string]string            // uninterpreted spec functions: name -> result sort
+	Witnesses map[string]*Witness
 	Order     []string
 }
 
 var clauseKW = map[string]bool{"requires": true, "ensures": true, "assigns": true, "loop": true, "mode": true,
 	"trusted": true, "pure": true, "inline": true, "props": true, "let": true, "fuel": true, "params": true, "results": true, "where": true, "config": true}
-var blockKW = map[string]bool{"spec": true, "func": true, "schema": true, "lemma": true, "table": true, "ufun": true}
+var blockKW = map[string]bool{"spec": true, "func": true, "schema": true, "lemma": true, "table": true, "ufun": true, "witness": true}
 
 // readContractLines extracts //@ lines (also "// @") from a Go file.
 func readContractLines(path string) ([]string, []int, error) {
@@ -421,7 +427,7 @@ func joinContinuations(lines []string, nums []int) ([]string, []int) {
 }
 
 func NewSpecDB() *SpecDB {
-	return &SpecDB{Fns: map[string]*SpecFn{}, Contracts: map[string]*Contract{}, Tables: map[string]map[string]string{}, UFuns: map[string]string{}}
+	return &SpecDB{Fns: map[string]*SpecFn{}, Contracts: map[string]*Contract{}, Tables: map[string]map[string]string{}, UFuns: map[string]string{}, Witnesses: map[string]*Witness{}}
 }
 
 func (db *SpecDB) LoadFile(path string) error {
@@ -449,6 +455,22 @@ func (db *SpecDB) LoadFile(path string) error {
 				return fmt.Errorf("%s: bad ufun %q", loc, rest)
 			}
 			db.UFuns[m[1]] = m[3]
+		case "witness":
+			cur, curSchema = nil, nil
+			// witness <iface> <concrete struct type> Method=field ... : how replay builds an interface
+			// value whose pure methods return the values of the model
+			f := strings.Fields(rest)
+			if len(f) < 3 {
+				return fmt.Errorf("%s: bad witness", loc)
+			}
+			wt := &Witness{Iface: f[0], Type: f[1], Fields: map[string]string{}}
+			for _, kv := range f[2:] {
+				p := strings.SplitN(kv, "=", 2)
+				if len(p) == 2 {
+					wt.Fields[p[0]] = p[1]
+				}
+			}
+			db.Witnesses[expandKey(f[0])] = wt
 		case "table":
 			cur, curSchema = nil, nil
 			// table name k=v; k=v; ...
